@@ -745,7 +745,7 @@ def u4(rep, src):
                     return e["k"] == "mcall" and e["m"] in ("len", "count") and vp[0] in names_in(e)
                 def dedup(e):
                     s = show(e, 0) + " ".join(m.get("turbofish") or "" for m in find(e, "mcall"))
-                    return ("HashSet" in s or "BTreeSet" in s or ".unique()" in s or ".dedup()" in s)
+                    return "HashSet" in s or "BTreeSet" in s or ".unique()" in s  # `.dedup()` only removes adjacent repeats: not a distinctness test
                 if all(is_len(s) for s in sides) and sum(1 for s in sides if dedup(s)) == 1:
                     ok, why = True, "set size == list size"
                 else:
@@ -762,6 +762,73 @@ def u4(rep, src):
             rep.instance("U4", "Values::schema@else", {"else": show(ev, 30)})
             if ev is None or path_of(ev) != "None":
                 rep.violation("U4", "Values::schema@else", "the alternative of the distinctness test is not None", "src/%s:%d" % (RM, s["l"]))
+
+
+def u5(rep, src):
+    rep.rule(
+        "U5",
+        "the key-uniqueness predicate Field::has_unique_or_primary_key_constraint (read by Join::schema and by the DP count multiplicity) is true exactly for Some(Unique) and Some(PrimaryKey) "
+        "over the four cases None / Unique / PrimaryKey / ForeignKey of Field::constraint(), and Field::constraint() returns the stored field",
+        floor=5,
+        necessary="a ForeignKey column (repeated values by nature) read as a unique join key keeps the other side's UNIQUE flags through a one-to-many join",
+    )
+    F = "relation/field.rs"
+    f = src.one_fn(name="has_unique_or_primary_key_constraint", file=F)
+    g = src.one_fn(name="constraint", file=F)
+    gt = block_value(g.body)
+    rep.instance("U5", "Field::constraint", {"returns": show(gt, 40)})
+    if gt is None or show(gt, 0).replace(" ", "") not in ("self.constraint", "self.constraint.clone()"):
+        rep.violation("U5", "Field::constraint", "Field::constraint() does not return the stored constraint: %s" % show(gt, 60), g.where())
+    t = block_value(f.body)
+    cases = {"None": None, "Unique": None, "PrimaryKey": None, "ForeignKey": None}
+
+    def pat_cases(p):
+        if p["k"] == "or":
+            out = set()
+            for c in p["cases"]:
+                r = pat_cases(c)
+                if r is None:
+                    return None
+                out |= r
+            return out
+        if p["k"] == "wild":
+            return set(cases)
+        if p.get("_none"):
+            return {"None"}
+        t = show(p, 0).replace(" ", "")
+        if t == "None":
+            return {"None"}
+        if t in ("Some(_)",):
+            return {"Unique", "PrimaryKey", "ForeignKey"}
+        for v in ("Unique", "PrimaryKey", "ForeignKey"):
+            if t == "Some(Constraint::%s)" % v:
+                return {v}
+        return None
+
+    arms = None
+    if t is not None and t["k"] == "match" and show(t["e"], 0).replace(" ", "") in ("self.constraint()", "self.constraint"):
+        arms = [(a["pat"], a.get("guard"), show(block_value(a["body"]) if a["body"]["k"] == "block" else a["body"], 0).strip()) for a in t["arms"]]
+    elif t is not None and t["k"] == "macro" and t.get("name", "").endswith("matches") and t.get("args") and show(t["args"][0], 0).replace(" ", "") in ("self.constraint()", "self.constraint"):
+        arms = [(t["args"][1], None, "true"), ({"k": "wild"}, None, "false")] if len(t["args"]) == 2 else None
+    elif t is not None and show(t, 0).replace(" ", "") in ("self.has_constraint()", "self.constraint.is_some()", "self.constraint().is_some()"):
+        arms = [({"k": "lit", "t": "x", "v": "None", "_none": 1}, None, "false"), ({"k": "wild"}, None, "true")]
+    if arms is None:
+        rep.undecidable("U5", "Field::has_unique_or_primary_key_constraint", "not a match / matches! on self.constraint(): %s" % show(t, 80), f.where())
+        return
+    for p, guard, val in arms:
+        cs = pat_cases(p)
+        if cs is None or guard is not None or val not in ("true", "false"):
+            rep.undecidable("U5", "Field::has_unique_or_primary_key_constraint", "cannot read arm %s => %s" % (show(p, 40), val), f.where())
+            return
+        for c in cs:
+            if cases[c] is None:
+                cases[c] = val == "true"
+    want = {"None": False, "Unique": True, "PrimaryKey": True, "ForeignKey": False}
+    for c, w in want.items():
+        key = "has_unique_or_primary_key_constraint@" + c
+        rep.instance("U5", key, {"constraint": c, "returns": cases[c], "expected": w})
+        if cases[c] != w:
+            rep.violation("U5", key, "has_unique_or_primary_key_constraint is %s for a field whose constraint is %s" % (cases[c], c), f.where())
 
 
 EXPECTED_SITES = {
@@ -812,6 +879,7 @@ def run(rep):
     u2(rep, src)
     u3(rep, src)
     u4(rep, src)
+    u5(rep, src)
     u0(rep, src)
     rep.extra["injective_table"] = INJECTIVE
     rep.assume("rustc accepts the tree (the syn facts are parsed from the same files the build uses)")
